@@ -220,17 +220,20 @@ func containsWildcards(name string) bool {
 // dedupePaths expects input as a sorted list
 func dedupePaths(in []string) []string {
 	out := make([]string, 0, len(in))
-	var last string
+loop:
 	for _, s := range in {
 		// if one of the paths is root there is no filter
 		if s == "." {
 			return nil
 		}
-		if strings.HasPrefix(s, last+"/") {
-			continue
+		// a bytewise sort does not keep a directory next to its contents ("a", "a.txt", "a/b"),
+		// so compare with every path kept so far, not only with the previous one
+		for _, kept := range out {
+			if strings.HasPrefix(s, kept+"/") {
+				continue loop
+			}
 		}
 		out = append(out, s)
-		last = s
 	}
 	return out
 }
